@@ -516,7 +516,7 @@ func runC20(r *ev.Run, thorough bool) int {
 	r.Add("routing_table_entries_checked", int64(entries))
 	r.Add("update_orders", int64(oc))
 	// forwarding
-	alpha := []nhEvent{{Op: "submit", B: 0}, {Op: "receive", B: 1, P: "n1", Q: "n1"}, {Op: "receive", B: 2, P: "n3", Q: "n3"}, {Op: "up", P: "n1"}, {Op: "up", P: "n3"}, {Op: "up", P: "n2"}, {Op: "down", P: "n1"},
+	alpha := []nhEvent{{Op: "submit", B: 0}, {Op: "receive", B: 1, P: "n1", Q: "n1"}, {Op: "receive", B: 2, P: "n3", Q: "n3"}, {Op: "up", P: "n1"}, {Op: "up", P: "n3"}, {Op: "up", P: "n2"}, {Op: "down", P: "n1"}, {Op: "up", P: "n1#2"},
 		{Op: "cron", N: "dtlsr_recompute"}, {Op: "cron", N: "dtlsr_broadcast"}, {Op: "retry"}, {Op: "fail", P: "n1"}, {Op: "ok", P: "n1"}, {Op: "advance", S: 1}}
 	var st nhBFSStats
 	depth, budget := 4, 6000
